@@ -22,7 +22,7 @@ man = {
     },
     "engines": [
         {"name": "harness", "path": "harness", "serves_properties": sorted(CHECKS.keys()),
-         "kind_free_text": "Go module: pgregory.net/rapid v1.3.0 property/state-machine tests, exhaustive fault/schedule enumerations driven through the same property functions, native go fuzzing for byte-level parsers; independent reference implementations in harness/ref; in-process Lightning network model, storage proxies, cooperative scheduler and HTTP router"},
+         "kind_free_text": "Go module: pgregory.net/rapid v1.3.0 property/state-machine tests, exhaustive fault/schedule enumerations driven through the same property functions, native go fuzzing on coverage-instrumented builds (byte-level parsers, request bodies at the HTTP surface, and the generated-input properties through rapid.MakeFuzz); independent reference implementations in harness/ref; in-process Lightning network model (also behind imitations of the CLN REST and LND rpc interfaces, so that the repository's own adapters run in the loop), storage proxies, cooperative scheduler and HTTP router"},
         {"name": "driver", "path": "check", "serves_properties": sorted(CHECKS.keys()),
          "kind_free_text": "python3 driver: rebuilds the test binary from /repo's working tree with -tags verif, shards rapid runs by seed derived from VERIF_SEED, merges evidence, maps outcomes to exit 0/1/2"},
     ],
